@@ -163,6 +163,58 @@ def main():
                               "%s: ASan/UBSan build of sbeppc rc=%s produces different files or fails: %s" % (name, rc4, out4[-400:]),
                               {"schema": name, "schema_xml": xml})
             rep.count("files_compared", 4 * len(ref))
+            # --- obstructed destinations: the output tree exists already and something other than a plain file sits where
+            # a file must go (or the other way round).  Whatever sbeppc does, exit 0 is only allowed when every file reads
+            # back complete (added after seeded change C20-4: a writer that moves finished files into place can lose the
+            # failure of that last step)
+            paths = sorted(ref)
+            orng = C.rng_for(rep.seed, "c20-obstruct", name)
+            sample = paths if rep.tier != "quick" else sorted(set(orng.sample(paths, min(6, len(paths))) + paths[:1] + paths[-1:]))
+            dirs = sorted({os.path.dirname(p_) for p_ in paths if os.path.dirname(p_)})
+            obstructions = [("directory-at-file-path", p_) for p_ in sample] + [("symlink-to-dev-full", p_) for p_ in sample[:3]] + \
+                           [("dangling-symlink", p_) for p_ in sample[:3]] + [("file-at-directory-path", d_) for d_ in dirs]
+            for oi, (okind, target) in enumerate(obstructions):
+                do = os.path.join(sd, "obst%d" % oi)
+                shutil.copytree(ref_dir, do)
+                tp = os.path.join(do, target)
+                if okind == "directory-at-file-path":
+                    os.remove(tp)
+                    os.makedirs(os.path.join(tp, "occupied"))
+                elif okind == "symlink-to-dev-full":
+                    os.remove(tp)
+                    os.symlink("/dev/full", tp)
+                elif okind == "dangling-symlink":
+                    os.remove(tp)
+                    os.symlink(os.path.join(sd, "obst%d-target" % oi), tp)
+                else:
+                    shutil.rmtree(tp)
+                    C.write_file(tp, "not a directory\n")
+                rco, oo, _ = run_sbeppc(rel, xmlp, do)
+                rep.evaluation()
+                rep.count("obstructed_destinations")
+                rep.nontrivial("obstructed", name, okind, target)
+                complete = False
+                if rco == 0:
+                    try:
+                        complete = all(open(os.path.join(do, p_), "rb").read() == v for p_, v in ref.items())
+                    except OSError:
+                        complete = False
+                rpl = {"schema": name, "schema_xml": xml, "obstruction": okind, "path": target, "exit": rco, "output": oo[-600:]}
+                if rco == 0 and not complete:
+                    rep.violation("exit0-with-wrong-files", "obstructed/" + okind,
+                                  "%s: %s `%s` in the output tree: sbeppc exited 0 but the generated files do not read back "
+                                  "complete" % (name, okind, target), rpl)
+                elif rco != 0 and (rco < 0 or rco in (97, 98, 99, 134, 139)):
+                    rep.violation("crash-after-fault", "obstructed/" + okind, "%s: sbeppc died (rc=%s) with %s `%s`: %s" % (
+                        name, rco, okind, target, oo[-300:]), rpl)
+                elif rco != 0 and "Error" not in oo:
+                    rep.violation("no-diagnostic", "obstructed/" + okind, "%s: exit %s without a diagnostic with %s `%s`" % (
+                        name, rco, okind, target), rpl)
+                elif rco != 0 and okind == "dangling-symlink":
+                    rep.count("obstructed_dangling_symlink_refused")
+                if okind in ("directory-at-file-path", "file-at-directory-path") and rco == 0:
+                    rep.count("obstructed_replaced_by_sbeppc")
+                shutil.rmtree(do, ignore_errors=True)
             # --- dry run under the shim
             dry = os.path.join(sd, "dry")
             os.makedirs(dry)
@@ -257,5 +309,5 @@ def main():
                         "short-then-28": "short write, retry fails with ENOSPC"}
     rep.cov["exhaustive"] = True
     rep.assumptions += ["faults are injected at the libc call boundary (mkdir/fopen/write/writev); close() and fsync are "
-                        "not part of the property", "one fault per run"]
+                        "not part of the property", "one fault per run", "rename/link calls towards the output directory are intercepted too (none is made by the current sbeppc)"]
     return rep.finish()
